@@ -95,7 +95,8 @@ def run(acc, eng, seqs, k, cname, maxcd, queries=None):
 
 
 # ------------------------------------------------------------------ TCRdist part
-CDR3S = ("CASSLGQAYEQYF", "CASSLGQAYEQFF", "CASSLGAYEQYF", "CASRPTGGDTQYF", "CAVRDSNYQLIW", "CAVRDSNYKLIW", "CAVDSNYQLIW")
+CDR3S = ("CASSLGQAYEQYF", "CASSLGQAYEQFF", "CASSLGAYEQYF", "CASRPTGGDTQYF", "CAVRDSNYQLIW", "CAVRDSNYKLIW", "CAVDSNYQLIW",
+         "CAKSLGQAYEQYF", "CATSLGQAYEQLF")     # the last two differ from the first only inside the default trim (positions 2 and -2)
 BV = ("TRBV6-1*01", "TRBV9*01", "TRBV20-1*01")
 AV = ("TRAV1-1*01", "TRAV12-2*01", "TRAV26-1*01")
 
@@ -158,7 +159,8 @@ def spaces(tier):
                                 yield ("hist", kind, ri, qi, k, h)
 
     def gen_tcr_hist():
-        tables = (((0, 0, 0, 4), (0, 1, 0, 4), (1, 2, 1, 5)), ((2, 3, 0, 6), (2, 3, 0, 4), (0, 0, 1, 5), (0, 1, 1, 5)))
+        tables = (((0, 0, 0, 4), (0, 1, 0, 4), (1, 2, 1, 5)), ((2, 3, 0, 6), (2, 3, 0, 4), (0, 0, 1, 5), (0, 1, 1, 5)),
+                  ((0, 0, 0, 4), (0, 7, 0, 4), (0, 8, 0, 4), (0, 1, 0, 4)))
         depth = 2 if q else 3
         for ti in range(len(tables)):
             for chain in ("beta", "both"):
@@ -361,7 +363,7 @@ def _vt(chain):
     return _VT[chain]
 
 
-TCR_KW = ({}, {"dist_weight": 1}, {"ntrim": 2, "ctrim": 1}, {"gap_penalty": 4})
+TCR_KW = ({}, {"dist_weight": 1}, {"ntrim": 2, "ctrim": 1}, {"gap_penalty": 4}, {"ntrim": 0})
 
 
 def _check_tcr_history(acc, case):
@@ -373,8 +375,9 @@ def _check_tcr_history(acc, case):
         kwd = dict(TCR_KW[ki])
         snap = dict(kwd)
         df = _mk_df(rows)
-        exp = expected_tcr(rows, chain, 2, True, 60, **kwd)
-        res = acc.call(pyrepseq.nearest_neighbor_tcrdist, df, chain=chain, max_edits=2, max_tcrdist=60, **({"tcrdist_kwargs": kwd} if kwd or step % 2 else {}))
+        k_ = 1 if len(rows) == 4 and rows[1][1] == 7 else 2
+        exp = expected_tcr(rows, chain, k_, True, 60, **kwd)
+        res = acc.call(pyrepseq.nearest_neighbor_tcrdist, df, chain=chain, max_edits=k_, max_tcrdist=60, **({"tcrdist_kwargs": kwd} if kwd or step % 2 else {}))
         rc = ("tcrhist", rows, chain, tuple(h[:step + 1]))
         if raised(res):
             acc.fail("nearest_neighbor_tcrdist/history/raised-%s" % res.type, rc, sorted(exp), res)
